@@ -159,3 +159,80 @@ def tsa_lock_left(sc, sysm):
 def tsa_any_bad(sc, sysm):
   fs = [any_crash(sc, sysm), tsa_bad_value(sc, sysm), tsa_lock_left(sc, sysm)]
   return lambda B, st: B.or_(*[f(B, st) for f in fs])
+
+
+# ---- stopping scenario (C12, C11, C31) ------------------------------------------------------------------------------
+def g_is(name, val=1):
+  return lambda sc, sysm: (lambda B, st: B.eq(st[name], B.const(val)))
+
+
+returned = g_is("g.returned")
+late_dispatch = g_is("g.late_dispatch")
+late_fresh = g_is("g.late_fresh")
+late_stale = g_is("g.late_stale")
+
+
+def returned_consumer_alive(sc, sysm):
+  """stop() has returned in another thread but the object's thread has not ended"""
+  return lambda B, st: B.and_(B.eq(st["g.returned"], B.const(1)), B.not_(ended(sysm, B, st, 1)))
+
+
+def returned_flag_wrong(sc, sysm):
+  """after the call returned: a source that had to be stopped still has its run flag up or is still tracked, or one that had to be
+  left alone lost its flag / its place in the tracked list"""
+  info = sc.info
+  action = info["action"]
+
+  def f(B, st):
+    bad = []
+    n = info["sources"]
+    for i, fl in enumerate(info["flags"]):
+      must_stop = action == "stop" or i == 0 or (action == "cancel_events" and not info["other_source"])
+      up = B.eq(st[fl + ".flag"], B.const(1))
+      if must_stop:
+        bad.append(up)
+      else:
+        # a source finishes by itself (clears its own flag) after its last firing: only a *premature* clear is wrong
+        bad.append(B.and_(B.not_(up), B.ult(st["g.posts.%d" % info["timer_tids"][i]], B.const(info["times"]))))
+    want_tracked = 0 if action == "stop" else sum(1 for i in range(n) if not (i == 0 or (action == "cancel_events" and not info["other_source"])))
+    bad.append(B.not_(B.eq(st["tracked.len"], B.const(want_tracked))))
+    return B.and_(B.eq(st["g.returned"], B.const(1)), B.or_(*bad))
+  return f
+
+
+def caller_open(sc, sysm):
+  return lambda B, st: B.not_(ended(sysm, B, st, 0))
+
+
+def stop_bad(sc, sysm):
+  fs = [any_crash(sc, sysm), returned_consumer_alive(sc, sysm), late_dispatch(sc, sysm), late_fresh(sc, sysm), returned_flag_wrong(sc, sysm)]
+  return lambda B, st: B.or_(*[f(B, st) for f in fs])
+
+
+def cancel_bad(sc, sysm):
+  fs = [any_crash(sc, sysm), late_fresh(sc, sysm), returned_flag_wrong(sc, sysm)]
+  return lambda B, st: B.or_(*[f(B, st) for f in fs])
+
+
+def handler_stop_bad(sc, sysm):
+  fs = [any_crash(sc, sysm), late_dispatch(sc, sysm)]
+  return lambda B, st: B.or_(*[f(B, st) for f in fs])
+
+
+def consumer_open(sc, sysm):
+  return lambda B, st: B.not_(ended(sysm, B, st, 1))
+
+
+def handler_stopped(sc, sysm):
+  return lambda B, st: B.eq(st["g.handler_stopped"], B.const(1))
+
+
+def caller_stuck_not_capacity(sc, sysm):
+  """the caller has not returned although the token queue has room (a caller blocked on a *full* token queue with the consumer
+  gone is the capacity race that C05/C16 leave outside their claims)"""
+  cap = sc.info["capacity"]
+  return lambda B, st: B.and_(B.not_(ended(sysm, B, st, 0)), B.ult(st["Q.cnt"], B.const(cap)))
+
+
+def consumer_alive_after_handler_stop(sc, sysm):
+  return lambda B, st: B.and_(B.eq(st["g.handler_stopped"], B.const(1)), B.not_(ended(sysm, B, st, 1)))
